@@ -84,7 +84,7 @@ def gen_exhaustive(length):
 def tie(rep, tier, rng, model_ok):
     quick = tier == "quick"
     cases = opseq.load_corpus("C17") + gen_exhaustive(6 if quick else 8) + gen(rng, 2000 if quick else 40000, 40 if quick else 300)
-    opseq.check(rep, "sinks", cases, vlib.SIMH, ["seq"], ref_run, nontrivial, model_ok, 0, exhaustive=True,
+    opseq.check(rep, "sinks", cases, vlib.SIMH, ["seq"], ref_run, nontrivial, model_ok, (lambda c: 3 if c.startswith("ebuf") else 2), exhaustive=True,
                 rule="all write/read/open/close sequences of length %d on EventBuffer(cap 1..3) and EventSlot + random sequences (cap 1..16, overflow bursts); non-trivial = >=2 writes and a read" % (6 if quick else 8))
     rep.cov["exhaustive"] = True
 
